@@ -490,7 +490,7 @@ def run_side(exe, cases, env=None, timeout_per_batch=300, sanitizer=False, cwd=N
         deaths = sum(1 for r in results if r and r[-1].startswith("fault "))
         if rc == -999:
             hangs += 1
-        if hangs >= 3 or deaths >= 40:
+        if hangs >= 1 or deaths >= 40:
             # a tree that hangs repeatedly or dies on most inputs: the verdict is already clear; do not pay a process
             # restart (or the full timeout) for every remaining case
             break
@@ -555,6 +555,8 @@ def correspondence(ctx, cases, batch=400):
                 samples.append({"name": c.get("name"), "ops": c["ops"][:12], "impl": io[:12]})
         if len(fails) > 50:
             break
+        if any(f.kind == "fault" and "hang" in f.what for f in fails):
+            break       # a hanging tree: the verdict is clear, every further batch would cost a timeout
     return n_eval, len(distinct), samples, fails
 
 
@@ -676,7 +678,7 @@ def run_check(prop, tier, seed, replay=None):
                     or (f.kind == "diverge" and getattr(prop, "diverge_is_violation", False))]
         if concrete:
             f = concrete[0]
-            if f.case and ctx.harness_exe and len(f.case.get("ops", [])) > 2:
+            if f.case and ctx.harness_exe and len(f.case.get("ops", [])) > 2 and "hang" not in (f.what or ""):
                 try:
                     f.case = shrink_case(ctx, f.case, lambda c: case_still_fails(ctx, c, f))
                 except Exception as e:
